@@ -146,3 +146,42 @@ def _two_columns(case, tr, out, ev, op, emb, e, tf):
         _attach_pieces(t, ev, op, emb, col)
         traces.append(t)
     return traces
+
+
+def replay_state(case):
+    """specification -> code: `case` is a terminal (pc = "done") state of GBChunked as TLC dumped it: the call (kernel, keys, vals,
+    chunk layout, representation, mask) and what the machine merged (per label) or broadcast (per row).  The same call is made on
+    a real grouping and must return the state's values."""
+    from groupby_lib import GroupBy
+    inv = {"size": "size", "count": "count", "sum": "sum", "min": "min", "max": "max", "first": "first", "last": "last"}
+    op = inv[case["kernel"]]
+    keys, vals, klens, n = case["keys"], case["vals"], case["klens"], len(case["keys"])
+    api.set_config({"T": None, "R": None})
+    e = api.key_encoder("i64")
+    karr = e.enc(keys)
+    pos, chunks = 0, []
+    for ln in klens:
+        chunks.append(pa.array(karr[pos:pos + ln], type=pa.int64()))
+        pos += ln
+    emb = EMB["f64"]
+    values = emb.enc(vals)
+    mask = build_mask(case["mask"], n)
+    t = {"spec": {k: case[k] for k in ("kernel", "keys", "vals", "klens", "rep", "mask", "labels", "expect", "tf")}, "ok": 0}
+    try:
+        gb = call(GroupBy, pa.chunked_array(chunks, type=pa.int64()))
+        if case["rep"] == "global":
+            gb.groups
+        kw = dict(transform=True) if case["tf"] else dict(observed_only=False)
+        out = call(gb.size, mask=mask, **kw) if op == "size" else call(getattr(gb, op), values, mask=mask, **kw)
+        arr, index = api.to_1d(out)
+        res, _ = api.dec_values(op, arr, emb)
+        if case["tf"]:
+            got = res
+        else:
+            by_label = {e.dec(x): r for x, r in zip(index.tolist(), res)}
+            got = [by_label.get(lab, -996) for lab in case["labels"]]
+        t["got"] = got
+        t["ok"] = int(got == case["expect"])
+    except Exception as ex:
+        t.update(exc=type(ex).__name__, msg=str(ex)[:160])
+    return t
